@@ -141,11 +141,12 @@ class Session:
         if sample is not None and len(self.samples) < 6:
             self.samples.append(sample)
 
-    def oracle(self, cond, what, replay):
-        """implementation-level oracle: the property's predicate on the real code"""
+    def oracle(self, cond, what, replay, key=""):
+        """implementation-level oracle: the property's predicate on the real code.
+        `key` is a stable identification of the failing call site / input shape (known findings)."""
         self.oracle_checks += 1
         if not cond:
-            self.oracle_failures.append({"what": what, "replay": replay})
+            self.oracle_failures.append({"what": what, "replay": replay, "key": key})
         return cond
 
     def tape(self, n=2048):
